@@ -38,6 +38,7 @@ type tncConn struct {
 	mu       sync.Mutex
 	buffer   int
 	nWritten int
+	lockNext bool // Set by Write: the flushLock is to be locked at the next buffer update.
 
 	readBuf []byte // Remainder of a data frame that did not fit in the buffer given to Read.
 }
@@ -112,6 +113,13 @@ L:
 			return 0, fmt.Errorf("CRC failure")
 		}
 
+		// The flushLock is locked by the control loop when it gets the next buffer update
+		// (see updateBuffer). Locking it here, after the update has been broadcasted, would
+		// miss the unlock if the buffer has reached zero in the meantime.
+		conn.mu.Lock()
+		conn.lockNext = true
+		conn.mu.Unlock()
+
 		conn.dataOut <- buf.Bytes()
 		conn.mu.Lock()
 		conn.nWritten += n
@@ -120,7 +128,6 @@ L:
 			select {
 			case msg := <-r.Msgs():
 				if msg.cmd == cmdBuffer {
-					conn.flushLock.Lock()
 					break L // Wait until we get a buffer update before returning
 				} else if msg.cmd == cmdCRCFault {
 					if debugEnabled() {
@@ -224,5 +231,12 @@ func (conn *tncConn) updateBuffer(b int) {
 
 	if b == 0 {
 		conn.flushLock.Unlock()
+	}
+
+	// The first update after a write locks (also if it reports zero, as it might be
+	// an update from before the write).
+	if conn.lockNext {
+		conn.lockNext = false
+		conn.flushLock.Lock()
 	}
 }
